@@ -1,6 +1,7 @@
 package main
 
 import (
+	"go/types"
 	"fmt"
 	"go/ast"
 	"go/token"
@@ -174,7 +175,14 @@ func checkC12(p *Prog, r *Report) {
 	}
 	for _, c := range p.CallsTo(cw, false, "ice.UDPMuxDefault.getConn") {
 		facts, _ := p.FactsAtCall(cw, c)
-		miss := facts.Has(func(ft Fact) bool { return ft.Op == "==" && ft.Val && p.isNilExpr(ft.Y) && strings.Contains(p.Canon(ft.X), "destinationConn") })
+		// "address miss": the variable that receives this lookup's result was still nil
+		var dstObj types.Object
+		if as := p.assignOf(cw, c); as != nil && len(as.Lhs) >= 1 {
+			if id, ok := unparen(as.Lhs[0]).(*ast.Ident); ok {
+				dstObj = p.ObjOf(id)
+			}
+		}
+		miss := facts.Has(func(ft Fact) bool { return ft.Op == "==" && ft.Val && p.isNilExpr(ft.Y) && p.isObj(ft.X, dstObj) })
 		_, isStun := p.HasCallTruth(facts, cw, "stun.IsMessage", 0, true)
 		_, decoded := p.HasCallEqNil(facts, cw, "stun.Message.Decode", 0, true)
 		_, hasUser := p.HasCallEqNil(facts, cw, "stun.Message.Get", 1, true)
@@ -466,4 +474,16 @@ func reachesViaRead(p *Prog, g *CFG, from, target *Block) bool {
 	}
 	_, direct := g.PathAvoiding(Loc{from, 0}, isRead, func(b *Block) bool { return b == target }, nil)
 	return !direct
+}
+
+// assignOf: the assignment statement whose right-hand side is call.
+func (p *Prog) assignOf(f *Func, call *ast.CallExpr) *ast.AssignStmt {
+	var out *ast.AssignStmt
+	walkBody(f, func(n ast.Node) bool {
+		if as, ok := n.(*ast.AssignStmt); ok && len(as.Rhs) == 1 && unparen(as.Rhs[0]) == ast.Expr(call) {
+			out = as
+		}
+		return true
+	})
+	return out
 }
